@@ -1,12 +1,25 @@
 /-
-Go maps in pkg/scale (`encodeMap` / `decodeMap`), top level only; used by the C11 / C12 drivers.
-A map value is its list of entries in ITERATION order (the Go runtime picks the order).
+Go maps in pkg/scale (`encodeMap` / `decodeMap`); used by the C11 / C12 drivers.
+A map is the top-level type of a case; its value type is a `Ty` or again a map (`MTy`).
+A map value is its list of entries (iteration order is the Go runtime's: known finding map-order).
 Correspondence only: no theorem is stated about maps.
 -/
 import Gossamer.Model.C12
 import Gossamer.Lib.ScaleText
 namespace Gossamer.ScaleMap
 open Gossamer Gossamer.Scale
+
+/-- map value types -/
+inductive MTy
+  | leaf (g : ScaleText.GTy)
+  | map (k : ScaleText.GTy) (v : MTy)
+deriving Inhabited
+
+/-- map values -/
+inductive MVal
+  | leaf (v : Val)
+  | map (es : List (Val × MVal))
+deriving Inhabited, BEq
 
 /-- order of two keys of a map key type (unsigned / signed integers, strings bytewise) -/
 def keyLt : Val → Val → Bool
@@ -22,91 +35,157 @@ where
     | x :: xs, y :: ys => if x < y then true else if y < x then false else bytesLt xs ys
 
 /-- `SetMapIndex`: the later entry wins -/
-def insertEntry (k v : Val) : List (Val × Val) → List (Val × Val)
+def insertEntry (k : Val) (v : MVal) : List (Val × MVal) → List (Val × MVal)
   | [] => [(k, v)]
   | (k', v') :: rest => if k' == k then (k, v) :: rest else (k', v') :: insertEntry k v rest
 
-def ofEntries (es : List (Val × Val)) : List (Val × Val) :=
+def ofEntries (es : List (Val × MVal)) : List (Val × MVal) :=
   es.foldl (fun acc e => insertEntry e.1 e.2 acc) []
 
-def insertSorted (e : Val × Val) : List (Val × Val) → List (Val × Val)
+def insertSorted (e : Val × MVal) : List (Val × MVal) → List (Val × MVal)
   | [] => [e]
   | f :: rest => if keyLt e.1 f.1 then e :: f :: rest else f :: insertSorted e rest
 
-def sortEntries (es : List (Val × Val)) : List (Val × Val) := es.foldr insertSorted []
+def sortEntries (es : List (Val × MVal)) : List (Val × MVal) := es.foldr insertSorted []
 
-/-- canonical encoding of a map: compact length, entries in ascending key order -/
-def canon (kt vt : Ty) (es : List (Val × Val)) : Bytes :=
-  compactEnc es.length ++
-    (sortEntries es).flatMap (fun e => encode Spec.codec kt e.1 ++ encode Spec.codec vt e.2)
+/-- canonical encoding: compact length, entries in ascending key order -/
+partial def canon : MTy → MVal → Bytes
+  | .leaf g, .leaf v => encode Spec.codec g.toTy v
+  | .map k vt, .map es =>
+    compactEnc es.length ++
+      (sortEntries es).flatMap (fun e => encode Spec.codec k.toTy e.1 ++ canon vt e.2)
+  | _, _ => []
 
-/-- outcome of `decodeMap` -/
-inductive MRes
-  | ok (entries : List (Val × Val)) (rest : Bytes)
-  | err
+/-- does the value hold a Go `uint` in [2^32, 2^56) (known finding uint-5to7) -/
+partial def hasMid : MTy → MVal → Bool
+  | .leaf g, .leaf v => C12.hasMidUint g.toTy v
+  | .map _ vt, .map es => es.any (fun e => hasMid vt e.2)
+  | _, _ => false
 
-/-- the loop of `decodeMap`: key, value, `dstv.SetMapIndex` -/
-def decodeEntries (kt vt : Ty) : Nat → Bytes → List (Val × Val) → MRes
-  | 0, bs, acc => .ok acc bs
-  | n + 1, bs, acc =>
-    match (C12.decodeA kt bs).res with
-    | none => .err
-    | some (k, r1) =>
-      match (C12.decodeA vt r1).res with
-      | none => .err
-      | some (v, r2) => decodeEntries kt vt n r2 (insertEntry k v acc)
+mutual
+/-- `unmarshal` of a map value type: a leaf through the model decoder, a map through `decodeMap`
+    (a nil destination is made first).  `total` = length of the whole input: a declared byte-string
+    length above `total + 65536` counts as a failure (the harness does not materialise it). -/
+partial def decodeM (total : Nat) (t : MTy) (bs : Bytes) : Option (MVal × Bytes) :=
+  match t with
+  | .leaf g => (decode (C12.codecR .buffer total) g.toTy bs).map (fun (v, r) => (.leaf v, r))
+  | .map k vt =>
+    match C11.decodeUintV bs with
+    | none => none
+    | some (n, r) => (decodeEntries total k vt n r []).map (fun (es, r') => (.map es, r'))
 
-/-- `decodeMap` into a nil or a made (empty) map: a nil destination is made first (after the
-    fix recorded in harness/C12/findings.json), so both behave alike -/
-def decodeMap (kt vt : Ty) (_isNil : Bool) (bs : Bytes) : MRes :=
-  match C11.decodeUintV bs with
-  | none => .err
-  | some (n, r) => decodeEntries kt vt n r []
+/-- the loop of `decodeMap`: a fresh key and a fresh value per tuple, then `SetMapIndex` -/
+partial def decodeEntries (total : Nat) (k : ScaleText.GTy) (vt : MTy) (n : Nat) (bs : Bytes)
+    (acc : List (Val × MVal)) : Option (List (Val × MVal) × Bytes) :=
+  match n with
+  | 0 => some (acc, bs)
+  | n + 1 =>
+    match decode (C12.codecR .buffer total) k.toTy bs with
+    | none => none
+    | some (key, r1) =>
+      match decodeM total vt r1 with
+      | none => none
+      | some (v, r2) => decodeEntries total k vt n r2 (insertEntry key v acc)
+end
 
-/-- text of a map value `{k:v,k:v}` -/
-partial def pEntries (kt vt : ScaleText.GTy) (cs : List Char) : Option (List (Val × Val) × List Char) :=
+/-! text -/
+
+mutual
+partial def pMTy (cs : List Char) : Option (MTy × List Char) :=
+  match cs with
+  | 'm' :: 'a' :: 'p' :: '(' :: r => do
+    let (k, r) ← ScaleText.pTy r
+    let (_, r) ← ScaleText.eat ',' r
+    let (v, r) ← pMTy r
+    let (_, r) ← ScaleText.eat ')' r
+    pure (.map k v, r)
+  | _ => (ScaleText.pTy cs).map (fun (g, r) => (.leaf g, r))
+end
+
+def parseMTy (s : String) : Option MTy :=
+  match pMTy s.toList with
+  | some (t, []) => some t
+  | _ => none
+
+mutual
+partial def pMVal (t : MTy) (cs : List Char) : Option (MVal × List Char) :=
+  match t with
+  | .leaf g => (ScaleText.pVal g cs).map (fun (v, r) => (.leaf v, r))
+  | .map k vt =>
+    match cs with
+    | '{' :: r => (pEntries k vt r).map (fun (es, r') => (.map (ofEntries es), r'))
+    | _ => none
+
+partial def pEntries (k : ScaleText.GTy) (vt : MTy) (cs : List Char) :
+    Option (List (Val × MVal) × List Char) :=
   match cs with
   | '}' :: r => some ([], r)
-  | ',' :: r => pEntries kt vt r
+  | ',' :: r => pEntries k vt r
   | _ => do
-    let (k, r) ← ScaleText.pVal kt cs
+    let (key, r) ← ScaleText.pVal k cs
     let (_, r) ← ScaleText.eat ':' r
-    let (v, r) ← ScaleText.pVal vt r
-    let (es, r) ← pEntries kt vt r
-    pure ((k, v) :: es, r)
+    let (v, r) ← pMVal vt r
+    let (es, r) ← pEntries k vt r
+    pure ((key, v) :: es, r)
+end
 
-def parseEntries (kt vt : ScaleText.GTy) (s : String) : Option (List (Val × Val)) :=
-  match s.toList with
-  | '{' :: r => match pEntries kt vt r with
-    | some (es, []) => some es
-    | _ => none
+def parseMap (k : ScaleText.GTy) (vt : MTy) (s : String) : Option (List (Val × MVal)) :=
+  match pMVal (.map k vt) s.toList with
+  | some (.map es, []) => some es
   | _ => none
+
+/-- the value a dirty destination holds (harness `c11DirtyVal`) -/
+partial def dirtyM : MTy → MVal
+  | .leaf g => .leaf (C12.dirtyVal g.toTy)
+  | .map k vt => .map [(C12.dirtyVal k.toTy, dirtyM vt)]
 
 /-- driver for `menc <kt> <vt> {..}` -/
 def stepEnc (kts vts vals : String) : String :=
-  match ScaleText.parseTy kts, ScaleText.parseTy vts with
-  | some kg, some vg =>
-    match parseEntries kg vg vals with
+  match ScaleText.parseTy kts, parseMTy vts with
+  | some kg, some vt =>
+    match parseMap kg vt vals with
     | none => "bad-op"
-    | some es =>
-      let m := ofEntries es
-      let c := hex (canon kg.toTy vg.toTy m)
+    | some m =>
+      let c := hex (canon (.map kg vt) (.map m))
       let model := s!"{c} perm=true stable={decide (m.length ≤ 1)}"
       let spec := s!"{c} perm=true stable=true"
       if model = spec then model else s!"{model}\tspec={spec}\tkf=map-order"
   | _, _ => "bad-op"
 
-def showM (kt vt : Ty) (data : Bytes) : MRes → String
-  | .ok es r => s!"ok {hex (canon kt vt es)} {data.length - r.length}"
-  | .err => "err"
+/-- driver for `mrt <kt> <vt> {..}`: Marshal, Unmarshal into a nil map, deep comparison -/
+def stepRt (kts vts vals : String) : String :=
+  match ScaleText.parseTy kts, parseMTy vts with
+  | some kg, some vt =>
+    match parseMap kg vt vals with
+    | none => "bad-op"
+    | some m =>
+      let t := MTy.map kg vt
+      let cb := canon t (.map m)
+      let c := hex cb
+      let spec := s!"{c} eq=true alias=false"
+      let model :=
+        match decodeM cb.length t cb with
+        | none => s!"{c} err"
+        | some (v, _) => s!"{c} eq={canon t v == cb} alias=false"
+      if model = spec then model
+      else s!"{model}\tspec={spec}\tkf={if hasMid t (.map m) then "uint-5to7" else "none"}"
+  | _, _ => "bad-op"
 
-/-- driver for `mdec <kt> <vt> <hex> <nil|made>` -/
+/-- driver for `mdec <kt> <vt> <hex> <nil|made|dirty>` -/
 def stepDec (kts vts h dst : String) : String :=
-  match ScaleText.parseTy kts, ScaleText.parseTy vts, ofHex? h with
-  | some kg, some vg, some data =>
-    let kt := kg.toTy
-    let vt := vg.toTy
-    showM kt vt data (decodeMap kt vt (dst == "nil") data)
+  match ScaleText.parseTy kts, parseMTy vts, ofHex? h with
+  | some kg, some vt, some data =>
+    let t := MTy.map kg vt
+    let shw (init : List (Val × MVal)) : String :=
+      match C11.decodeUintV data with
+      | none => "err"
+      | some (n, r) =>
+        match decodeEntries data.length kg vt n r init with
+        | none => "err"
+        | some (es, r') => s!"ok {hex (canon t (.map es))} {data.length - r'.length}"
+    let spec := shw []
+    let model := if dst == "dirty" then shw [(C12.dirtyVal kg.toTy, dirtyM vt)] else spec
+    if model = spec then model else s!"{model}\tspec={spec}\tkf=dirty-dst"
   | _, _, _ => "bad-op"
 
 end Gossamer.ScaleMap
